@@ -187,8 +187,6 @@ def roundtrip_case(draw):
     kind = "tc"
     if spec["valid"]:
         kind = draw(st.sampled_from(["tc", "ts", "ts"]))
-    else:
-        spec = spec  # G3: any schema text
     return dict(
         spec=spec, kind=kind,
         builder=draw(st.sampled_from(["rows", "columns", "dict32", "dict64"])),
